@@ -115,8 +115,34 @@ def core_texts(tier: str, seed: int = 0) -> List[str]:
             for rep in range(reps):
                 off = (ci * 7 + pi * 3 + rep * 11 + seed) % len(atoms)
                 texts.append("%s (%s)" % (chain, instantiate(pat, atoms, off)))
+    texts += name_clash_texts(tier)
     rnd.shuffle(texts)
     return texts
+
+
+def name_clash_texts(tier: str) -> List[str]:
+    """Sibling quantifier blocks that reuse bound-variable names, including names with numeric suffixes
+    (the renaming scheme of ensure_unique_bound_variables / fresh_vars)."""
+    names = ["x", "x_0", "x_1", "y"] if tier == "quick" else ["x", "x_0", "x_1", "x_2", "y", "y_0"]
+    atoms = ["(= %s %s)", "(not (= %s %s))", "before(%s, %s)", "(str.prefixof %s %s)"]
+    blocks = []
+    for i, (n1, n2) in enumerate(itertools.product(names, names)):
+        if n1 == n2:
+            continue
+        q1, q2 = (("forall", "exists"), ("exists", "forall"), ("forall", "forall"))[i % 3]
+        blocks.append("(%s <var> %s in start: %s <var> %s in start: %s)" % (q1, n1, q2, n2, atoms[i % 4] % (n1, n2)))
+    out = []
+    step = 5 if tier == "quick" else 1
+    pairs = list(itertools.product(range(len(blocks)), repeat=2))
+    for k, (i, j) in enumerate(pairs):
+        if k % step:
+            continue
+        out.append("%s %s %s" % (blocks[i], ("and", "or")[k % 2], blocks[j]))
+    # three siblings and a nested re-binding
+    for k in range(0, len(blocks) - 2, 4 if tier == "quick" else 1):
+        out.append("%s and %s and %s" % (blocks[k], blocks[k + 1], blocks[k + 2]))
+        out.append("forall <assgn> x in start: (%s or %s)" % (blocks[k], blocks[(k + 3) % len(blocks)]))
+    return out
 
 
 # --------------------------------------------------------------------------
@@ -172,6 +198,36 @@ def ast_family(tier: str) -> List[Tuple[str, Callable[[], L.Formula]]]:
     ]
     quants = [(True, False, True, False), (False, True, False, True), (True, True, True, True), (False, False, False, False)]
     out = []
+    # name clashes between sibling / nested quantifier blocks, built WITHOUT the parser (parse_isla already
+    # runs ensure_unique_bound_variables, so parsed formulas never exercise the renaming)
+    pool = ["x", "x_0", "x_1", "y"] if tier == "quick" else ["x", "x_0", "x_1", "x_2", "y", "y_0", "y_1"]
+
+    def block(n1, n2, q1, q2, neq):
+        x, y = L.BoundVariable(n1, "<var>"), L.BoundVariable(n2, "<var>")
+        eq = z3_eq(x.to_smt(), y.to_smt())
+        body = smt(z3.Not(eq), x, y) if neq else smt(eq, x, y)
+        Q = {"A": L.ForallFormula, "E": L.ExistsFormula}
+        return Q[q1](x, start, Q[q2](y, start, body))
+
+    # Block j is the one that gets renamed.  Its verdict must be visible and must change under variable
+    # capture on trees with >= 2 different <var> values: forall-exists-neq (TRUE -> FALSE), exists-forall-eq
+    # (FALSE -> TRUE); block i is chosen neutral for the connective.
+    pairs = [(n1, n2) for n1 in pool for n2 in pool if n1 != n2]
+    for i, j in itertools.product(range(len(pairs)), repeat=2):
+        def p1(i=i, j=j):
+            return L.ConjunctiveFormula(block(*pairs[i], "A", "E", False), block(*pairs[j], "A", "E", True))
+
+        def p2(i=i, j=j):
+            return L.DisjunctiveFormula(block(*pairs[i], "A", "A", False), block(*pairs[j], "E", "A", False))
+
+        def p3(i=i, j=j):   # renamed block below another quantifier that re-uses a name
+            z = L.BoundVariable(pairs[i][1], "<var>")
+            return L.ExistsFormula(z, start, L.ConjunctiveFormula(block(*pairs[i], "A", "E", False), block(*pairs[j], "A", "E", True)))
+        tag = "%s-%s" % ("".join(pairs[i]), "".join(pairs[j]))
+        out.append(("name-clash/and/" + tag, p1))
+        out.append(("name-clash/or/" + tag, p2))
+        if tier != "quick" or (i + j) % 3 == 0:
+            out.append(("name-clash/nested/" + tag, p3))
     rot_n = 2 if tier == "quick" else 8
     for name, mk in shapes:
         for rot in range(rot_n):
@@ -227,6 +283,8 @@ def find_witness(f1: L.Formula, f2: L.Formula, negated: bool, limit_s: float = 6
         if time.time() - t0 > limit_s:
             break
         v1, v2 = verdict(f1, t, gname), verdict(f2, t, gname)
+        if v1.startswith("raised") and v2.startswith("raised"):
+            continue    # the program itself is outside evaluate's domain on this tree
         if v1.startswith("raised") or v2.startswith("raised"):
             return dict(tree=str(t), v1=v1, v2=v2)
         if negated:
